@@ -22,6 +22,7 @@ import Compress.Proofs.BzImplCut
 import Compress.Proofs.FlateApi
 import Compress.Proofs.BzReaderApi
 import Compress.Proofs.FlateApiRefine
+import Compress.Proofs.MetaRApi
 
 namespace Compress.Props.C09
 open Compress Compress.XFlate
@@ -412,5 +413,63 @@ example : let r := ((newReader { data := [0x01, 0x00, 0x00, 0xff, 0xff] }).read 
 set_option maxRecDepth 100000 in
 example : (Flate.decodeBits (Bits.ofBytes [0x01, 0x00, 0x00, 0xff, 0xff])).out = #[] ∧
     (Flate.decodeBits (Bits.ofBytes [0x01, 0x00, 0x00, 0xff, 0xff])).verdict = .ok 40 ∧ 8 * 2 < 40 := by decide
+
+/-! ### meta.Reader (API-level model `Meta/ReaderApi.lean`): every op sequence, every input, every fault -/
+
+section metaReader
+open Compress.Meta Compress.Proofs.MetaRApi
+
+/-- **meta.Reader, sticky.** In the state reached by any op sequence on any source: once a
+    Read has returned an error `e`, that Read delivered nothing; every later Read, whatever its
+    buffer length, returns no data and `e` and changes nothing; and unless `e` is io.EOF (after
+    which Close succeeds and the error becomes "closed") or the reader was closed already,
+    Close returns `e` too and every sequence of Reads and Closes leaves the reader as it is,
+    until Reset. -/
+theorem C09_meta_reader_sticky (src : Src) (ops : List Meta.ROp) (n : Nat) (e : RErr)
+    (h : ((MR.run (newMR src) ops).1.read n).2.2 = some e) :
+    ((MR.run (newMR src) ops).1.read n).2.1 = [] ∧
+    (∀ ns : List Nat, MR.run ((MR.run (newMR src) ops).1.read n).1 (ns.map .read) =
+      (((MR.run (newMR src) ops).1.read n).1, ns.map (fun _ => RRes.read [] (some e)))) ∧
+    (e ≠ .eof → e ≠ .closed → ∀ ops', noReset ops' →
+      MR.run ((MR.run (newMR src) ops).1.read n).1 ops' =
+        (((MR.run (newMR src) ops).1.read n).1, ops'.map (stuckRes e))) :=
+  Compress.Proofs.MetaRApi.C09_meta_reader_sticky_proof src ops n e h
+
+/-- **meta.Reader, Close.** In the state `s` reached by any op sequence on any source, Close
+    returns nil exactly when no error is latched, or the latched error is io.EOF, or the reader
+    is closed already (so NOT only after io.EOF: a reader that has not failed closes with nil
+    wherever it stands in the stream - see the example below); otherwise it returns the latched
+    error and changes nothing.  A nil Close leaves the reader closed. -/
+theorem C09_meta_reader_close (src : Src) (ops : List Meta.ROp) :
+    let s := (MR.run (newMR src) ops).1
+    (s.close.2 = none ↔ (s.err = none ∨ s.err = some .eof ∨ s.err = some .closed)) ∧
+    (∀ e, s.close.2 = some e → s.close.1 = s ∧ s.err = some e ∧ e ≠ .eof) ∧
+    (s.close.2 = none → s.close.1.done = true ∧ s.close.1.err = some .closed) :=
+  Compress.Proofs.MetaRApi.C09_meta_reader_close_proof src ops
+
+/-- **meta.Reader, I/O errors verbatim.** In the state `s` reached by any op sequence: a
+    source error a Read returns is the error of the source handed to the last Reset
+    (NewReader), unchanged; over a source with a pending fault Read never reports
+    io.ErrUnexpectedEOF, and reports io.EOF only for a block with a final bit; and whenever
+    the bytes such a source hands out end at a block boundary or inside a block, Read returns
+    exactly the source's error, with no data. -/
+theorem C09_meta_reader_io_error_verbatim (src : Src) (ops : List Meta.ROp) (n : Nat) :
+    let s := (MR.run (newMR src) ops).1
+    (∀ t, (s.read n).2.2 = some (.fault t) → (lastSrc src ops).tag = some t) ∧
+    ((s.read n).2.2 = some .ueof → (lastSrc src ops).tag = none) ∧
+    ((s.read n).2.2 = some .eof → (lastSrc src ops).tag = none ∨ (s.read n).1.final ≠ .fnil) ∧
+    (∀ t, s.err = none → s.buf = [] → s.final = .fnil → (lastSrc src ops).tag = some t →
+      (decodeBlock s.rest = .error .eof ∨ decodeBlock s.rest = .error .unexpectedEOF) →
+      (s.read (n + 1)).2.2 = some (.fault t) ∧ (s.read (n + 1)).2.1 = []) :=
+  Compress.Proofs.MetaRApi.C09_meta_reader_io_error_verbatim_proof src ops n
+
+-- Close returns nil on a reader that has read nothing of a non-empty input
+example : (newMR { data := [1, 2, 3] }).close.2 = none := by decide
+-- a fault at byte 2 of a 3-byte input: Read returns the source's error (tag 9), not io.ErrUnexpectedEOF
+example : ((newMR { data := [4, 0, 134], fault := some (2, 9) }).read 5).2.2 = some (.fault 9) := by decide
+-- and without the fault the same cut input gives io.ErrUnexpectedEOF
+example : ((newMR { data := [4, 0] }).read 5).2.2 = some .ueof := by decide
+
+end metaReader
 
 end Compress.Props.C09
